@@ -67,9 +67,15 @@ def min_eig_rel(P):
     return float(np.min(np.linalg.eigvalsh(s))) / scale, float(np.max(np.abs(P - P.T))) / scale
 
 
-def float_history(ctx, d, name, nops, singular_start):
+def float_history(ctx, d, name, nops, singular_start, scale=1.0):
     rng = ctx.rng
     process, sensor = eh.make_noises(rng, d)
+    if scale != 1.0:
+        # a consistently scaled problem: covariance AND noises times `scale` (same conditioning, different magnitude)
+        from fractions import Fraction
+        sc = Fraction(scale)
+        process = {k: v * sc for k, v in process.items()}
+        sensor = {k: {r: v * sc for r, v in rd.items()} for k, rd in sensor.items()}
     max_dt = rng.choice([0.1, 0.05, 0.5])
     try:
         ekf = eh.compile_ekf(d, process, sensor, {}, rng, cse=rng.random() < 0.5, filtering=rng.choice([None, 5.0]), max_dt=max_dt)
@@ -78,17 +84,18 @@ def float_history(ctx, d, name, nops, singular_start):
         return
     n = len(d.state)
     st = ekf.State(**{s.name: float(gen.dyadic(rng, 1, 4)) for s in d.state})
-    P = eh.to_np(eh.spd(rng, n), (n, n))
+    P = eh.to_np(eh.spd(rng, n), (n, n)) * scale     # "relative to their magnitude": valid at any scale
     if singular_start:
         P[:, 0] = 0.0
         P[0, :] = 0.0
     cov = ekf.Covariance.from_data(P)
-    case = {"model": name, "def": d.describe(), "max_dt": max_dt, "ops": nops, "singular_start": singular_start, "seed": ctx.seed}
+    case = {"model": name, "def": d.describe(), "max_dt": max_dt, "ops": nops, "singular_start": singular_start, "seed": ctx.seed,
+            "covariance_scale": scale}
     ctx.case(dict(case, nonce=rng.random()), nontrivial=True)
-    ctx.count(f"model={name}"); ctx.count(f"ops={nops}")
+    ctx.count(f"model={name}"); ctx.count(f"ops={nops}"); ctx.count(f"scale={scale:g}")
     worst = (0.0, 0.0)
     for step in range(nops):
-        if float(np.max(np.abs(st.data))) > 1e6 or float(np.max(np.abs(cov.data))) > 1e12:
+        if float(np.max(np.abs(st.data))) > 1e6 or float(np.max(np.abs(cov.data))) > 1e12 * max(scale, 1.0):
             ctx.count("history_left_bounded_domain"); break
         try:
             with fk.quiet():
@@ -107,7 +114,7 @@ def float_history(ctx, d, name, nops, singular_start):
         except AssertionError as e:
             me, asym = min_eig_rel(cov.data)
             msg = str(e).split("\n")[0]
-            ctx.fail("covariance-refused:" + ("singular-jacobian" if name != "rocket-lite" else "regular"),
+            ctx.fail("covariance-refused:" + ("singular-jacobian" if name != "rocket-lite" else "regular") + ("" if scale == 1.0 else ":scaled"),
                      f"{name}: step {step} ({op if 'op' in dir() else '?'}) refuses a covariance as invalid ({msg}); before the step "
                      f"min eigenvalue/scale={me:.3e}, asymmetry/scale={asym:.3e}", dict(case, step=step))
             return
@@ -172,7 +179,7 @@ def run(ctx):
     for h in range(nh):
         which = h % 3
         if which == 0:
-            float_history(ctx, pm, "mass/z/v/a", nops, singular_start=(h % 2 == 1))
+            float_history(ctx, pm, "mass/z/v/a", nops, singular_start=(h % 2 == 1), scale=[1.0, 1e8, 1e-6, 1e6][(h // 3) % 4])
         elif which == 1:
             float_history(ctx, singular_generated(ctx.rng), "generated-singular", nops // 3, singular_start=False)
         else:
